@@ -5,6 +5,7 @@ set -e
 PATCH="$(realpath "$1")"; ID="$2"; TIER="${3:-quick}"
 D="$(mktemp -d /tmp/mut.XXXXXX)"
 trap 'rm -rf "$D"' EXIT
+mkdir -p "$D/tmp"; export TMPDIR="$D/tmp"
 if [ -n "$BASE" ]; then
   # seeds made against an older /repo commit: materialise that commit instead of the working tree
   mkdir -p "$D/repo" && git -C /repo archive "$BASE" | tar -x -C "$D/repo"
